@@ -227,7 +227,7 @@ func Run(dir, tier string, seed int64) error {
 	shapes := map[string]string{} // flow -> shape with benign data
 
 	// checkDoc: Coq case + generic-parser oracles for one produced document
-	checkDoc := func(flow string, doc []byte, want []string, desc map[string]interface{}) (*idp.Node, bool) {
+	checkDoc := func(flow string, doc []byte, want []string, desc map[string]interface{}, wantSub ...string) (*idp.Node, bool) {
 		run.Res.Evaluations++
 		run.Count("flow=" + flow)
 		desc["flow"] = flow
@@ -267,6 +267,18 @@ func Run(dir, tier string, seed int64) error {
 				break
 			}
 		}
+		for _, w := range wantSub {
+			found := false
+			for _, g := range got {
+				if strings.Contains(g, sanitize(w)) {
+					found = true
+				}
+			}
+			if !found {
+				fail("value-not-returned", fmt.Sprintf("%s: the text %q (sanitised %q) does not occur in any attribute value or text a generic parser returns", flow, w, sanitize(w)), desc)
+				break
+			}
+		}
 		run.Distinct(fmt.Sprintf("%s/%d", flow, len(doc)%31))
 		id++
 		return gen, true
@@ -287,6 +299,7 @@ func Run(dir, tier string, seed int64) error {
 	for _, h := range strs {
 		env := mkEnv(h)
 		st := env.Storage
+		st.ErrEcho = true
 		sp := sso.BaseSP(nil, true)
 		if _, err := st.Register("app-1", sp); err != nil {
 			return err
@@ -345,6 +358,22 @@ func Run(dir, tier string, seed int64) error {
 						id++
 					}
 				}
+			}
+			// failed answers whose status message repeats error text: the decoder's complaint about an element name, and the
+			// storage's complaint about an unknown issuer
+			bad := `<` + "x" + `>` + esc(h) + `</x>`
+			if _, derr := samlxml.DecodeLogoutRequest("", idp.B64([]byte(bad))); derr != nil {
+				if rep := env.Do(idp.ReqSpec{Method: http.MethodPost, Path: "/SLO", Body: []idp.Param{idp.Q("SAMLRequest", idp.B64([]byte(bad)))}}.HTTP()); rep.Msg != nil {
+					checkDoc("logout-response-failed-decode", rep.Msg, nil, desc(), derr.Error())
+				}
+			}
+			lunk := `<samlp:LogoutRequest xmlns:samlp="urn:oasis:names:tc:SAML:2.0:protocol" xmlns:saml="urn:oasis:names:tc:SAML:2.0:assertion" ID="` + esc(h+"#id") + `" Version="2.0"><saml:Issuer>` + esc("https://unknown.example/"+h) + `</saml:Issuer><saml:NameID>u</saml:NameID></samlp:LogoutRequest>`
+			if rep := env.Do(idp.ReqSpec{Method: http.MethodPost, Path: "/SLO", Body: []idp.Param{idp.Q("SAMLRequest", idp.B64([]byte(lunk)))}}.HTTP()); rep.Msg != nil {
+				checkDoc("logout-response-failed-unknown-sp", rep.Msg, []string{h + "#id"}, desc(), "https://unknown.example/"+h)
+			}
+			aunk := strings.Replace(areq, `<saml:Issuer>`+sso.SPEntity, `<saml:Issuer>`+esc("https://unknown.example/"+h), 1)
+			if rep := env.Do(idp.ReqSpec{Method: http.MethodPost, Path: "/SSO", Body: []idp.Param{idp.Q("SAMLRequest", idp.B64([]byte(aunk)))}}.HTTP()); rep.Msg != nil {
+				checkDoc("response-failed-unknown-sp", rep.Msg, []string{h + "#id"}, desc(), "https://unknown.example/"+h)
 			}
 			// attribute query: request ID, subject, user attributes
 			aq := `<soap:Envelope xmlns:soap="http://schemas.xmlsoap.org/soap/envelope/"><soap:Body><samlp:AttributeQuery xmlns:samlp="urn:oasis:names:tc:SAML:2.0:protocol" xmlns:saml="urn:oasis:names:tc:SAML:2.0:assertion" ID="` + esc(h+"#id") + `" Version="2.0" IssueInstant="2024-01-01T00:00:00Z"><saml:Issuer>` + sso.SPEntity + `</saml:Issuer><saml:Subject><saml:NameID>alice</saml:NameID></saml:Subject></samlp:AttributeQuery></soap:Body></soap:Envelope>`
@@ -513,7 +542,7 @@ func Run(dir, tier string, seed int64) error {
 		}
 	}
 	payload, _ := samlxml.DeflateAndBase64([]byte("<a/>"))
-	for _, e := range []string{"x", "deflate", "DEFLATE", samlxml.EncodingDeflate + " ", " " + samlxml.EncodingDeflate, strings.ToLower(samlxml.EncodingDeflate), strings.ToUpper(samlxml.EncodingDeflate),
+	for _, e := range []string{" ", "\t", "\r\n", "\u00a0", "  ", "x", "deflate", "DEFLATE", samlxml.EncodingDeflate + " ", " " + samlxml.EncodingDeflate, strings.ToLower(samlxml.EncodingDeflate), strings.ToUpper(samlxml.EncodingDeflate),
 		samlxml.EncodingDeflate[:len(samlxml.EncodingDeflate)-1], samlxml.EncodingDeflate + "\x00", "urn:oasis:names:tc:SAML:2.0:bindings:URL-Encoding:GZIP", "base64", "\x00", "identity", "urn:oasis:names:tc:SAML:2.0:bindings:HTTP-Redirect"} {
 		for _, b64 := range []bool{true, false} {
 			codec(e, b64, string(payload), "unknown-encoding")
@@ -524,7 +553,7 @@ func Run(dir, tier string, seed int64) error {
 		codec(samlxml.EncodingDeflate, true, m, "malformed-base64-or-deflate")
 		codec("", true, m, "malformed-base64")
 	}
-	run.Res.Rule = "documents: every message kind the IdP emits (success Response over POST and Redirect, failed Response from callback and from SSO, LogoutResponse, SOAP attribute response, metadata) produced by the real endpoints with each of 33 hostile strings (XML metacharacters, CDATA and comment delimiters, closing tags, controls, NUL, CR/LF/TAB, U+FFFE/U+FFFF, surrogates and other invalid UTF-8, supplementary planes) in every data position that can carry it (user attributes and custom attribute names/formats/values, NameID, request ID, ACS URL, organisation and contact data; request IDs only for XML-legal strings), plus the library's Marshal on 7 message types with every string field hostile to depth 4; each document is compared byte for byte with the Coq print of its raw token tree (so the lexer theorems apply to the real bytes), parsed by a generic strict parser (single well-formed document, same element/attribute structure as with benign data, every value returned up to U+FFFD replacement) and by the library decoders (DecodeResponse / Unmarshal: fields equal). escape: xml.EscapeText vs the model on hostile and random byte strings. codec: DeflateAndBase64 then InflateAndDecode on random, repetitive and document inputs (0..1000 bytes; sizes around the cap are C14's), base64 layer vs model, 14 unrecognised encoding identifiers x b64 on/off, malformed base64/DEFLATE. distinct = (flow or codec class, size class)."
+	run.Res.Rule = "documents: every message kind the IdP emits (success Response over POST and Redirect, failed Response from callback and from SSO incl. status messages that repeat decoder / storage error text, LogoutResponse success and failed, SOAP attribute response, metadata) produced by the real endpoints with each of 33 hostile strings (XML metacharacters, CDATA and comment delimiters, closing tags, controls, NUL, CR/LF/TAB, U+FFFE/U+FFFF, surrogates and other invalid UTF-8, supplementary planes) in every data position that can carry it (user attributes and custom attribute names/formats/values, NameID, request ID, ACS URL, organisation and contact data; request IDs only for XML-legal strings), plus the library's Marshal on 7 message types with every string field hostile to depth 4; each document is compared byte for byte with the Coq print of its raw token tree (so the lexer theorems apply to the real bytes), parsed by a generic strict parser (single well-formed document, same element/attribute structure as with benign data, every value returned up to U+FFFD replacement) and by the library decoders (DecodeResponse / Unmarshal: fields equal). escape: xml.EscapeText vs the model on hostile and random byte strings. codec: DeflateAndBase64 then InflateAndDecode on random, repetitive and document inputs (0..1000 bytes; sizes around the cap are C14's), base64 layer vs model, 19 unrecognised encoding identifiers (near misses: whitespace-only, padded, case variants, prefixes) x b64 on/off, malformed base64/DEFLATE. distinct = (flow or codec class, size class)."
 	return run.Finish()
 }
 
